@@ -211,11 +211,13 @@ def judge(s, calls, per_call, send_exc, results):
         for m, d, w in differing:
             api = "TelnetTransport.write" if m == "w" else "TelnetTransport.writeSequence"
             kinds = []
-            if IAC in d and w in (only_lf(d), d) and e2e:
+            shape_iac = IAC in d and w in (only_lf(d), d)
+            shape_lf = LF in d and w in (only_iac(d), d)
+            if shape_iac and e2e:
                 kinds.append("iac-not-escaped")
-            if LF in d and w in (only_iac(d), d) and lf_bad:
+            if shape_lf and lf_bad:
                 kinds.append("lf-not-sent-as-crlf")
-            if not kinds:
+            if not shape_iac and not shape_lf:
                 kinds.append("wire-bytes-wrong")
             for k in kinds:
                 if (api, k) in seen:
@@ -225,7 +227,8 @@ def judge(s, calls, per_call, send_exc, results):
                 bad.append(("%s:%s" % (api, k),
                             "app wrote %r as %r; call %r put %r on the wire (reference %r); peer app got %r, callbacks %r" % (
                                 s, calls, (m, d), w, ref_escape(d), e2e[0][2] if e2e else s, e2e[0][3] if e2e else ()), seg))
-        return bad
+        if bad:
+            return bad
     whole_ok = not any(len(seg) == 1 for _, seg, _, _ in e2e)
     if lf_bad:
         bad.append(("TelnetTransport:lf-not-sent-as-crlf", "app wrote %r as %r; wire %r" % (s, calls, wire), None))
